@@ -315,6 +315,9 @@ func (gowFamily) Exec(c *hc.Case) {
 	if p.Circuit == "normal" && p.K%4 == 3 {
 		fallbackCtxProbe(c)
 	}
+	if p.Circuit == "normal" && p.K%4 == 0 {
+		goexitProbe(c)
+	}
 	c.Tags = []string{"order:" + p.Order, "outcome:" + p.Outcome, "via:" + p.Via, "circuit:" + p.Circuit, fmt.Sprintf("lost:%v", p.Lost), "ctx_end:" + p.CtxEnd}
 	if ctxErr {
 		c.Tags = append(c.Tags, "result:ctx_error")
@@ -498,5 +501,52 @@ func fallbackCtxProbe(c *hc.Case) {
 			}
 			cancel()
 		}
+	}
+}
+
+// goexitProbe: a function given to Go that never RETURNS because it ends its goroutine (runtime.Goexit -- what
+// t.Fatal and friends do).  It has not returned nil, so Go does not return nil on its behalf: Go waits for the
+// execution timeout like for any function that does not come back, and reports that.
+func goexitProbe(c *hc.Case) {
+	for _, where := range []string{"run", "fallback"} {
+		var cfg circuit.Config
+		cfg.Execution.Timeout = 30 * time.Millisecond
+		cir := circuit.NewCircuitFromConfig("gow-goexit", cfg)
+		ctx, cancel := context.WithTimeout(context.Background(), 300*time.Millisecond)
+		runFn := func(context.Context) error {
+			if where == "run" {
+				runtime.Goexit()
+			}
+			return gowRunFails
+		}
+		fbFn := func(context.Context, error) error {
+			runtime.Goexit()
+			return nil
+		}
+		type res struct {
+			err error
+			pv  interface{}
+		}
+		done := make(chan res, 1)
+		go func() {
+			var r res
+			func() {
+				defer func() { r.pv = recover() }()
+				r.err = cir.Go(ctx, runFn, fbFn)
+			}()
+			done <- r
+		}()
+		select {
+		case r := <-done:
+			if r.pv == nil && r.err == nil && where == "run" {
+				c.Viol = append(c.Viol, hc.Violation{Clause: "C06: Execute returns nil exactly when the run function returned nil (or was nil) or an invoked fallback returned nil", Detail: "through Go, the run function ended its goroutine with runtime.Goexit (it never returned, and its fallback never returns either): Go returned nil", AtOp: 0})
+			}
+			if r.pv == nil && r.err == nil && where == "fallback" {
+				c.Viol = append(c.Viol, hc.Violation{Clause: "C06: Execute returns nil exactly when the run function returned nil (or was nil) or an invoked fallback returned nil", Detail: "through Go, the run function failed and the fallback ended its goroutine with runtime.Goexit (it never returned): Go returned nil", AtOp: 0})
+			}
+		case <-time.After(5 * time.Second):
+			c.Viol = append(c.Viol, hc.Violation{Clause: "C18: Go returns as soon as the run function finishes, or as soon as the caller's context or the execution timeout ends", Detail: "a function that ends its goroutine with runtime.Goexit: Go had not returned 5 s after both the execution timeout and the caller's deadline", AtOp: 0})
+		}
+		cancel()
 	}
 }
